@@ -10,7 +10,7 @@ def run(tier, seed):
     bad = r["collisions"] + r["splits"]
     parts = [dict(name="cache_key_partition", evaluations=r["cases"], distinct=r["hexes"], bad=bad, detail=r["detail"], sample=r["sample"])]
     return finish("C02", tier, t0, parts,
-                  "TLC enumerates request targets (2 methods x 3 host spellings x paths of <=3 (4) segments over {a,b,.,..,'',a|b,a%7Cb} x trailing slash x 4 queries), "
+                  "TLC enumerates request targets (2 methods x 3 host spellings x paths of <=3 (4) segments over {a,b,.,..,'',a|b,a%7Cb,a%3Fb} x trailing slash x 5 queries), "
                   "renders the wire form and computes the Strict and Loose identities; the Go driver parses each wire request with http.ReadRequest and computes "
                   "cache.MakeFromRequest; TLC judges the partition: no key shared by different Loose identities, one key per Strict identity. "
                   "distinct_nontrivial = distinct keys produced.",
